@@ -50,8 +50,11 @@ TableEq(TA, TB, exact) ==
 Newer(x, y) == \/ x[1] > y[1]
                \/ (x[1] = y[1] /\ x[2] > y[2])
                \/ (x[1] = y[1] /\ x[2] = y[2] /\ x[3] > y[3])
+\* a newer file is refused with ValueError; a file of the installed version loads (that is the round trip); what happens
+\* to a file of an OLDER version the statement leaves open (a library may drop support for an old format)
 VersionOK(c) == IF Newer(c.a, c.b) THEN c.outcome = "exc" /\ c.exc = "ValueError"
-                ELSE c.outcome = "ok"
+                ELSE IF c.a = c.b THEN c.outcome = "ok"
+                ELSE c.outcome = "ok" \/ c.exc = "ValueError"
 
 CaseClauses(c) ==
   << Cl(c.clause, TRUE,
